@@ -1987,8 +1987,12 @@ class Recipe:
             A new Container so that it may be used in later recipe steps.
         """
 
+        if self.locked:
+            raise RuntimeError("This recipe is locked.")
         if not isinstance(solvent, (Substance, Container)):
             raise TypeError("Solvent must be a Substance or a Container.")
+        if isinstance(solvent, Container) and solvent.name not in self.results:
+            raise ValueError(f"Solvent {solvent.name} has not been previously declared for use.")
         if name is not None and not isinstance(name, str):
             raise TypeError("Name must be a str.")
 
